@@ -331,6 +331,8 @@ def _run_egreg(case):
                 continue
             out["evals"] += 1
             w = eg.weights_
+            if (w < 0).any() or abs(float(w.sum()) - 1) > 1e-9:
+                V.append(viol("C10:egreg:weights-not-a-distribution", "weights_ has a negative entry or does not sum to 1: min %r sum %r (%s)" % (float(w.min()), float(w.sum()), ctx), None, None, snip))
             if list(w.index) != sorted(w.index):
                 out["classes"].add("eg_regression_unsorted_weights")
             # reference distribution per query row: value -> total weight of the stored predictors returning it
@@ -339,7 +341,9 @@ def _run_egreg(case):
                 if w[t] > 0:
                     pv = np.asarray(eg.predictors_[t].predict(Xq), float).ravel()
                     for r in range(nq):
-                        dist[r][float(pv[r])] = dist[r].get(float(pv[r]), 0.0) + float(w[t])
+                        # values that agree within 1e-9 are one value (0.75 vs 0.7500000000000001 from different predictors)
+                        key = next((k for k in dist[r] if abs(k - float(pv[r])) < 1e-9), float(pv[r]))
+                        dist[r][key] = dist[r].get(key, 0.0) + float(w[t])
             cs = np.cumsum([float(w[t]) for t in w.index]).tolist() + np.cumsum([float(w[t]) for t in sorted(w.index)]).tolist()
             fn = lambda rs: eg.predict(Xq, random_state=rs)  # noqa: E731
             meas = _explore(_scripted_predict(fn, nq), nq, [cs] * nq, out)
@@ -352,20 +356,20 @@ def _run_egreg(case):
                 for r in range(nq):
                     m = {float(k): v for k, v in meas[r].items()}
                     for v_, mv in m.items():
-                        if mv > 8 * DELTA and not any(abs(v_ - k) < 1e-12 for k in dist[r]):
+                        if mv > 8 * DELTA and not any(abs(v_ - k) < 1e-9 for k in dist[r]):
                             V.append(viol("C10:egreg:value-of-no-weighted-predictor", "row %d: predict returns %r on a set of draws of measure %.6f, but no stored predictor with "
                                           "positive weight outputs it (weighted outputs %r, weights_ %r) (%s)" % (r, v_, mv, dist[r], w.to_dict(), ctx), dist[r], m, snip))
                             break
                     else:
                         for k, pk in dist[r].items():
-                            mk = sum(mv for v_, mv in m.items() if abs(v_ - k) < 1e-12)
+                            mk = sum(mv for v_, mv in m.items() if abs(v_ - k) < 1e-9)
                             if abs(mk - pk) > 16 * DELTA:
                                 V.append(viol("C10:egreg:measure", "row %d: value %r is returned with measure %.9f, its predictors carry weight %.9f (weights_ %r) (%s)" % (
                                     r, k, mk, pk, w.to_dict(), ctx), pk, mk, snip))
                                 break
             vals_ok = [set(dist[r]) for r in range(nq)]
             _layer_b(V, "C10:egreg", lambda sd: eg.predict(Xq, random_state=sd), None, case["tier"], ctx,
-                     lambda r, v: any(abs(float(v) - k) < 1e-12 for k in vals_ok[r]))
+                     lambda r, v: any(abs(float(v) - k) < 1e-9 for k in vals_ok[r]))
             outcome.append([lp, ub, [sorted((round(k, 6), round(v, 6)) for k, v in d.items()) for d in dist]])
     out["outcome"] = outcome
     out["classes"] = sorted(out["classes"])
